@@ -266,3 +266,64 @@ def run(repo: Repo, rep: Report) -> None:  # noqa: F811
     ok = any(isinstance(n, ast.If) and "is None" in norm(n.test) and "default" in norm(n.test) and any(isinstance(a, ast.Assign) and "default_context" in norm(a.value) for a in n.body) for b in four for n in ast.walk(b))
     rep.ob("C02.i-write-without-graph-goes-to-default-graph", gm, "ConjunctiveGraph._spoc", "4-tuple with graph None on the write path -> default_context", ok,
            "" if ok else "ds.add((s, p, o, None)) stores the triple with context None: len(ds) == 1 but ds.quads() is empty and the default graph does not contain it", node=four[0])
+
+
+_run_base2 = run
+
+
+def run(repo: Repo, rep: Report) -> None:  # noqa: F811
+    _run_base2(repo, rep)
+    from vlib import argswap
+
+    rep.rule("C02.j-no-swapped-arguments-in-graph-and-stores",
+             "in rdflib/graph.py and the store modules a call that passes two local names which are also parameter names of the resolved callee passes each at its own parameter's "
+             "position (triple/context, subject/object, prefix/namespace share their types)", floor=10)
+    argswap.scan(repo, rep, "C02.j-no-swapped-arguments-in-graph-and-stores", ["rdflib.graph", "rdflib.store"] + sorted(m for m in repo.modules if m.startswith("rdflib.plugins.stores.")))
+
+
+_run_base3 = run
+
+
+def run(repo: Repo, rep: Report) -> None:  # noqa: F811
+    _run_base3(repo, rep)
+    mem = repo.mod("rdflib.plugins.stores.memory")
+    gm = repo.mod("rdflib.graph")
+    # ------------------------------------------------------------------ (k)
+    rep.rule("C02.k-removing-triples-keeps-the-graph-registered",
+             "Memory.remove forgets a context (drops it from the store's registry of graphs) only on a store that is not graph-aware: on a graph-aware store (every Dataset) a graph "
+             "exists until remove_graph is called, an emptied graph - `ds.remove((None, None, None, g))`, CLEAR GRAPH - is still listed by graphs()/contexts()", floor=1)
+    rf = mem.func("Memory.remove")
+    n_sites = 0
+    for c in own_nodes(rf):
+        is_drop = (isinstance(c, ast.Call) and isinstance(c.func, ast.Attribute) and c.func.attr in ("remove", "discard", "pop") and "all_contexts" in norm(c.func.value)) or (
+            isinstance(c, ast.Delete) and any("all_contexts" in norm(t) for t in c.targets))
+        if not is_drop:
+            continue
+        n_sites += 1
+        guarded = False
+        child = c
+        for p_ in mem.parents(c):
+            if isinstance(p_, ast.If) and any(child is x or any(child is y for y in ast.walk(x)) for x in p_.body) and "not self.graph_aware" in norm(p_.test):
+                guarded = True
+            if p_ is rf:
+                break
+            child = p_
+        rep.ob("C02.k-removing-triples-keeps-the-graph-registered", mem, "Memory.remove", c, guarded,
+               "only when the store is not graph-aware" if guarded else "a wildcard removal restricted to a graph unregisters that graph also on a graph-aware store: the Dataset forgets a graph that remove_graph was never called on", node=c)
+    if n_sites == 0:
+        rep.ob("C02.k-removing-triples-keeps-the-graph-registered", mem, "Memory.remove", "no context is unregistered by remove()", True, "", node=rf)
+
+    # ------------------------------------------------------------------ (l)
+    rep.rule("C02.l-graphs-are-looked-up-by-term-equality",
+             "ConjunctiveGraph.get_graph / get_context / Dataset.graph select a graph by comparing identifiers as TERMS (x.identifier == identifier): a blank-node name _:L and an IRI "
+             "<L> with the same text are different graphs; a comparison of str() values merges them", floor=1)
+    for q in ("ConjunctiveGraph.get_graph",):
+        f = gm.func(q)
+        cmps = [c for c in ast.walk(f) if isinstance(c, ast.Compare) and isinstance(c.ops[0], (ast.Eq, ast.NotEq)) and "identifier" in norm(c)]
+        if not cmps:
+            raise AnalysisError("%s: identifier comparison not found" % q)
+        strs = {a.targets[0].id for a in own_nodes(f) if isinstance(a, ast.Assign) and isinstance(a.targets[0], ast.Name) and isinstance(a.value, ast.Call) and norm(a.value.func) == "str"}
+        for c in cmps:
+            by_text = any(isinstance(s, ast.Call) and norm(s.func) == "str" for s in (c.left, c.comparators[0])) or any(isinstance(s, ast.Name) and s.id in strs for s in (c.left, c.comparators[0]))
+            rep.ob("C02.l-graphs-are-looked-up-by-term-equality", gm, q, c, not by_text,
+                   "term equality" if not by_text else "identifiers are compared as text: quads written with a Graph object named _:L land in the graph <L> (or vice versa), whichever the store lists first", node=c)
